@@ -60,8 +60,22 @@ const char *token_name(int t) {
 // ------------------------------------------------------------------ callbacks
 static World *W(scpi_t *c) { return (World *) c->user_context; }
 
+#ifdef SIM_CONFIG_USER
+extern "C" {
+const char *scpisim_line_ending = "\r\n";
+}
+void set_line_ending(int which) {
+    static const char *le[] = {"\r\n", "\n", "\r"};
+    scpisim_line_ending = le[((which % 3) + 3) % 3];
+}
+#else
+void set_line_ending(int) {}
+#endif
+
 static size_t cb_write(scpi_t *c, const char *data, size_t len) {
     World *w = W(c);
+    // a transmit routine may do other work (serve another context, raise an error) before it copies the bytes it was handed
+    if (w->write_hook) w->write_hook(*w);
     if (w->count_only) {
         w->counted += len;
         size_t keep = len < 32 ? len : 32;
@@ -76,7 +90,6 @@ static size_t cb_write(scpi_t *c, const char *data, size_t len) {
     w->canon += "W\"";
     w->canon += c_escape(std::string(data, len));
     w->canon += "\"\n";
-    if (w->write_hook) w->write_hook(*w);
     switch (w->cfg.wr_mode) {
         case 1: return len / 2;
         case 2: return 0;
@@ -221,6 +234,7 @@ World::World(const WorldCfg &c) : cfg(c) {
 }
 
 World::~World() {
+    if (getenv("SIM_TRACE")) fprintf(stderr, "---- canonical trace of a world ----\n%s", canon.c_str());   // inspection of a replayed plan only
     if (ctx && table_sealed) {
         // release whatever texts are still queued so that the leak check only sees real leaks
         ctx->user_context = this;
@@ -320,7 +334,20 @@ void World::seal() {
     table.push_back(end);
     alt_table.push_back(end);
     table_sealed = true;
-    SCPI_Init(ctx, table.data(), &iface, cfg.with_units ? (cfg.custom_units ? custom_unit_table() : scpi_units_def) : nullptr, "VERIF", "SIM", nullptr, "01-02", inbuf, (size_t) cfg.inbuf,
+    static const char *idn_default[4] = {"VERIF", "SIM", nullptr, "01-02"};
+    const char *idn[4];
+    for (int i = 0; i < 4; i++) {
+        if (cfg.idn_len[i] == -1) {
+            idn[i] = idn_default[i];
+        } else if (cfg.idn_len[i] < 0) {
+            idn[i] = nullptr;
+        } else {
+            idn_store[i].clear();
+            for (int k = 0; k < cfg.idn_len[i] && k < 200; k++) idn_store[i] += (char) ('A' + (k + i * 7) % 26);
+            idn[i] = idn_store[i].c_str();
+        }
+    }
+    SCPI_Init(ctx, table.data(), &iface, cfg.with_units ? (cfg.custom_units ? custom_unit_table() : scpi_units_def) : nullptr, idn[0], idn[1], idn[2], idn[3], inbuf, (size_t) cfg.inbuf,
               queue, (int16_t) cfg.queue);
     ctx->user_context = this;
 #if SIM_HEAP
